@@ -788,7 +788,7 @@ func c20Utilities(c *core.Ctx, r *core.Report) {
 
 func c20(c *core.Ctx, r *core.Report) {
 	ro := c.Roles()
-	r.Explanation = "C20 race freedom by ownership: (R1) the go statements in scope are exactly the two known fan-outs; (R2) for each goroutine body a top-down effect analysis over the CHA call graph classifies the base object of every store / map update / delete / reflect write reachable in scope as fresh (allocated by the goroutine), private (the goroutine's own range element or map entry), key-partitioned (fetched from a concurrent container under the goroutine's private key) or shared; every write to shared memory must be bracketed by Lock/Unlock of a shared mutex in the same function; (R3) WaitGroup protocol (Add before the loop, one go per iteration, Done deferred, Wait post-dominating) and the parent reads collected results only after Wait; (R4) linearization-point rule for the concurrent utilities: every method performs at most one mutating sync.Map primitive of the matching kind on any path, applied to its key parameter, and never an unconditional mutator after a read of the same map (check-then-act); (R5) their state is a sync.Map and the registries are built on the concurrent variants. Decides data-race freedom of the container's own code by ownership; linearizability proper needs histories and is not decided."
+	r.Explanation = "C20 race freedom by ownership: (R1) the go statements in scope are exactly the two known fan-outs; (R2) for each goroutine body a top-down effect analysis over the CHA call graph classifies the base object of every store / map update / delete / reflect write reachable in scope as fresh (allocated by the goroutine), private (the goroutine's own range element or map entry), key-partitioned (fetched from a concurrent container under the goroutine's private key) or shared; every write to shared memory must be bracketed by Lock/Unlock of a shared mutex in the same function, and a location the goroutines write is read by them only under the lock; (R3) WaitGroup protocol (Add before the loop, one go per iteration, Done deferred, Wait post-dominating) and the parent reads collected results only after Wait; (R4) linearization-point rule for the concurrent utilities: every method performs at most one mutating sync.Map primitive of the matching kind on any path, applied to its key parameter, never an unconditional mutator after a read of the same map (check-then-act), and on paths through the mutating primitive no result derives from an earlier read; (R5) their state is a sync.Map and the registries are built on the concurrent variants. Decides data-race freedom of the container's own code by ownership; linearizability proper needs histories and is not decided."
 	r.Assumptions = []string{"sync.Map, sync.Mutex, sync.WaitGroup and log.Logger are correct and thread-safe", "external callees do not write shared memory they were not given", "objects reachable only through a private / key-partitioned object are not shared (ownership of object graphs)", "user callbacks (Close, post-processors) are out of scope"}
 	// R1 census
 	type goSite struct {
